@@ -4,3 +4,4 @@ import Model.Field
 import Model.Wire
 import Model.Codec
 import Model.Transcript
+import Model.Batch
